@@ -306,6 +306,9 @@ def check_config(ctx, F, tag, cfg):
     ctx.ob("C10.R5.advance-if-atomic", ai.name + tag, loc(ai.raw["span"]), len(sites) >= 4 and not unguarded, "per-path-effects+guard",
            "%d stores/&mut uses of the iterator in advance_if; not dominated by `advance(..) == true`: %s (positioned iterators -- predecessor -- refuse a run and must find the iterator unchanged)" % (len(sites), unguarded))
 
+    # ---------------- R6 the two pending candidates of sparse_vector::Iter fall back on each other
+    check_two_ended_candidates(ctx, F, tag)
+
     # ---------------- R3 nth clamp (C09 restricted to iterator entry points) + twins
     entries, an = c09.run_analysis(F)
     for fn in sorted(entries):
@@ -324,3 +327,84 @@ def check_config(ctx, F, tag, cfg):
 
     # ---------------- R4
     c08.check_cursors(ctx, F, tag, prefix="C10.R4")
+
+
+def check_two_ended_candidates(ctx, F, tag):
+    """sparse_vector::Iter walks all positions and holds the next unvisited set position from either end in `next_set` /
+    `last_set`; the inner OneIter has already handed both out. When the inner iterator has nothing left for one end, the candidate
+    of the *other* end is the only one left and must be taken over -- at construction (a vector with a single value) and whenever a
+    candidate is consumed. A candidate that becomes None while the other end still holds a value loses that set bit for one
+    direction of iteration. Decided per store: every value stored into a candidate is Some(item of the inner iterator) under the
+    inner iterator's Some arm, or the other candidate (copy, or Option::or / or_else with it)."""
+    ITER = "sparse_vector::Iter"
+    sites = [("<sparse_vector::SparseVector as ops::BitVec<'a>>::iter", None),
+             ("<sparse_vector::Iter<'a> as std::iter::Iterator>::next", "next_set"),
+             ("<sparse_vector::Iter<'a> as std::iter::DoubleEndedIterator>::next_back", "last_set")]
+    other = {"next_set": "last_set", "last_set": "next_set"}
+
+    def peel(t):
+        while isinstance(t, tuple) and t and t[0] in ("ref", "deref", "cast"):
+            t = t[1]
+        return t
+
+    def is_some_of_inner(b, bi, t):
+        t = peel(t)
+        if not (t[0] == "adt" and t[1] == "std::option::Option" and t[2] == "Some"):
+            return False
+        # built under the Some arm of a call on the inner iterator (discriminant fact on an Option produced by next / next_back)
+        for f in facts_at(b, bi):
+            if f[0] == "discr" and f[2] == 1:
+                src = peel(f[1])
+                if src[0] == "discr":
+                    src = peel(src[1])
+                if src[0] == "call" and src[1].split("::")[-1] in ("next", "next_back") and any(peel(x) == src for x in subterms(t[4][0])):
+                    return True        # the payload is (a component of) the item that call returned
+        return False
+
+    for fn, field in sites:
+        b = F.body(fn)
+        where = loc(b.raw["span"])
+        if field is None:
+            aggs = [(bi, st) for bi, si, st in b.stmts() if st["s"] == "assign" and st["rv"]["r"] == "agg" and st["rv"].get("def") == ITER]
+            if len(aggs) != 1:
+                raise Undecided("anchor lost: %s builds %d %s values" % (fn, len(aggs), ITER))
+            ops = dict(zip(aggs[0][1]["rv"]["fields"], aggs[0][1]["rv"]["ops"]))
+            import c06
+            roots = {f: c06.root_local(b, ops[f]) for f in ("next_set", "last_set")}
+            # the candidate taken second (after the inner iterator lost its first item) is the one that needs the fallback
+            order = {f: min([d[0] for d in b.defs().get(roots[f], [])] or [1 << 30]) for f in roots}
+            second = max(order, key=lambda f: order[f])
+            first = other[second]
+            bad, fallback = [], False
+            for (bi, si, kind, payload) in b.defs().get(roots[second], []):
+                t = b.term_of_rvalue(payload) if kind == "assign" else b.term_of_call(payload)
+                if kind == "assign" and payload["r"] == "use" and c06.root_local(b, payload["o"]) == roots[first]:
+                    fallback = True
+                elif is_some_of_inner(b, bi, t):
+                    pass
+                elif kind == "call" and callee_name(payload).split("::")[-1] in ("or", "xor") and len(payload["args"]) == 2 and \
+                        c06.root_local(b, payload["args"][1]) == roots[first]:
+                    fallback = True
+                else:
+                    bad.append(tstr(t)[:70])
+            ctx.ob("C10.R6.candidate-falls-back", "%s|%s%s" % (fn, second, tag), where, fallback and not bad, "value-provenance",
+                   "initial `%s` is Some(inner item) or falls back on `%s`: fallback present %s; other values %s" % (second, first, fallback, bad))
+            ctx.count("two-ended-candidate-sites" + tag)
+            continue
+        # stores through &mut self
+        stores = []
+        for bi, si, st in b.stmts():
+            if st["s"] == "assign" and st["lhs"]["p"]:
+                path = self_path(b.term_of_place(st["lhs"]))
+                if path == [field]:
+                    stores.append((bi, b.term_of_rvalue(st["rv"])))
+        if not stores:
+            raise Undecided("anchor lost: %s does not store to .%s" % (fn, field))
+        fb = [bi for bi, t in stores if self_path(peel(t)) == [other[field]]]
+        bad = [tstr(t)[:70] for bi, t in stores if self_path(peel(t)) != [other[field]] and not is_some_of_inner(b, bi, t)]
+        later = all(any(b.dominates(f, bi) for f in fb) for bi, t in stores if bi not in fb)
+        ctx.ob("C10.R6.candidate-falls-back", "%s|%s%s" % (fn, field, tag), where, bool(fb) and not bad and later, "value-provenance",
+               "consuming `%s` first takes over `%s`, then prefers an item of the inner iterator: take-over %s, dominates the search %s; other values %s" % (
+                   field, other[field], bool(fb), later, bad))
+        ctx.count("two-ended-candidate-sites" + tag)
+    ctx.floor("two-ended-candidate-sites" + tag, 3)
